@@ -9,6 +9,7 @@ import (
 	"runtime"
 	"sort"
 	"strings"
+	"sync/atomic"
 	"time"
 
 	"go.opentelemetry.io/otel/trace/noop"
@@ -413,14 +414,22 @@ func c18RaceRun(r *vkit.Run) {
 			}
 			fake := fakedocker.New(ctrs)
 			k := it
+			ctx, cancel := context.WithCancel(context.Background())
+			var yields atomic.Int64
 			fake.Yield = func(string) {
+				// every seventh iteration the caller gives up while the opens are in flight (after the n-th call
+				// boundary): whatever still runs then must not touch what the caller already cleans up
+				if k%7 == 3 && yields.Add(1) == int64(1+k%5) {
+					cancel()
+				}
 				for y := 0; y < k%4; y++ {
 					runtime.Gosched()
 				}
 			}
 			q, _ := dockerlog.NewQuerier(fake)
 			eng := logqlengine.NewEngine(q, logqlengine.Options{TracerProvider: noop.NewTracerProvider()})
-			_, _ = eng.Eval(context.Background(), sc.query, sc.params)
+			_, _ = eng.Eval(ctx, sc.query, sc.params)
+			cancel()
 			r.Eval()
 		}
 		r.State(sc.name)
